@@ -693,8 +693,9 @@ fn gen_native(g: &mut Gen, w: &World, scan: &LedgerScan, step_no: usize) -> Step
 
 fn case(g: &mut Gen) -> Outcome {
     with_world(WORLD_KEY, no_genesis, build, |w| {
-        let full = ScanOptions { validate_only: None };
-        let mut scan = scan_ledger(w.db(), &full);
+        let (base_facts, _) = base(w);
+        let mut facts: Facts = (*base_facts).clone();
+        let mut scan = assemble(&facts);
         if let Some(p) = scan.problems.first() {
             return Outcome::fail(format!("C05 scan of the freshly built world: {}", p.class), p.detail.clone());
         }
@@ -744,12 +745,22 @@ fn case(g: &mut Gen) -> Outcome {
                     Fault::DropWithChildren => g.label("refused: drop with children"),
                 }
             }
-            // full scan after every commit
-            scan = scan_ledger(w.db(), &full);
+            // scan after every commit: nodes in the transaction's write-set (and new ones) are re-read,
+            // the global clauses are re-evaluated over everything
+            update_facts(w.db(), &mut facts, Some(&touched_nodes(&run)));
+            scan = assemble(&facts);
             if let Some(p) = scan.problems.first() {
                 let all: Vec<String> = scan.problems.iter().map(|p| format!("[{}] {}", p.class, p.detail)).collect();
                 return Outcome::fail(format!("C05 stored ledger is ill-formed after a commit: {}", p.class), format!("{}\nproblems:\n{}", log.join("\n"), all.join("\n")));
             }
+        }
+        // the incremental bookkeeping must not hide anything: scan from scratch once
+        let fresh = scan_ledger(w.db(), &ScanOptions { validate_only: None });
+        if let Some(p) = fresh.problems.first() {
+            return Outcome::fail(format!("C05 stored ledger is ill-formed after a commit: {}", p.class), format!("{}\n(found by the final from-scratch scan only)\n[{}] {}", log.join("\n"), p.class, p.detail));
+        }
+        if fresh.owner != scan.owner || fresh.internal_nodes != scan.internal_nodes {
+            return Outcome::fail("C05 harness: incremental and from-scratch scans disagree", log.join("\n"));
         }
         // second opinion
         if let Err(e) = repo_checkers(w.db()) {
